@@ -83,7 +83,9 @@ var c20Scenarios = []*c20Scenario{
 	{name: "p7enc", build: c20BuildP7Enc},
 	{name: "verifychain", build: c20BuildVerifyChain},
 	{name: "tlsconfig", build: c20BuildTLSConfig},
+	{name: "tlsconfigfc", build: c20BuildTLSConfigFC},
 	{name: "tlsconn", custom: c20TLSConn},
+	{name: "poolfirst", custom: c20PoolFirst},
 }
 
 func c20Find(name string) *c20Scenario {
@@ -169,7 +171,7 @@ func evalConc(args []string) string {
 			env = append(env, e)
 		}
 	}
-	cmd.Env = append(env, "VERIF_C20_CHILD=1", "GORACE=halt_on_error=1 exitcode=66 atexit_sleep_ms=0 log_path="+prefix)
+	cmd.Env = append(env, "VERIF_C20_CHILD=1", "GORACE=halt_on_error=1 exitcode=66 atexit_sleep_ms=0 history_size=7 log_path="+prefix)
 	err := cmd.Run()
 	if os.Getenv("VERIF_DEBUG") != "" && stderr.Len() > 0 {
 		fmt.Fprintf(os.Stderr, "c20 child stderr (%s):\n%s\n", sc.name, truncate(stderr.String(), 6000))
@@ -1086,7 +1088,8 @@ func c20BuildP7Enc(r *rng, g, iters int) *c20Inst {
 // ---------------------------------------------------------------------------------------------------
 // verifychain: one root pool and one intermediate pool shared by concurrent Verify calls
 
-func c20BuildVerifyChain(r *rng, g, iters int) *c20Inst {
+// the certificates of the verifychain / poolfirst scenarios
+func c20ChainCerts() (rootCerts, interCerts, leaves []*x509.Certificate, ids map[string]int) {
 	ca := func(id, subj, key, iss, signer int, pool string) certDesc {
 		return certDesc{id: id, subj: subj, iss: iss, key: key, signer: signer, ski: key, aki: -1, nb: -100, na: 100, bc: true, ca: true, mpl: -1, pool: pool}
 	}
@@ -1111,9 +1114,17 @@ func c20BuildVerifyChain(r *rng, g, iters int) *c20Inst {
 	}
 	descs[6].nb, descs[6].na = -200, -50
 	descs[14].nb, descs[14].na = -200, -50
-	roots, inters := x509.NewCertPool(), x509.NewCertPool()
-	var leaves []*x509.Certificate
-	ids := map[string]int{}
+	// renewals kept next to their predecessors, oldest first in the pool: the cross certificate of I1 is newer than
+	// I1, and R1 was re-issued (same name, same key) - several candidates per issuer name in both pools
+	descs[5].nb = -90
+	r1b := ca(9, 10, 10, 10, 10, "r")
+	r1b.nb = -60
+	r1c := ca(10, 10, 10, 10, 10, "r")
+	r1c.nb = -30
+	i2b := ca(11, 21, 21, 20, 20, "i")
+	i2b.nb = -40
+	descs = append(descs, r1b, r1c, i2b)
+	ids = map[string]int{}
 	for _, d := range descs {
 		c, err := makeCert(d)
 		if err != nil {
@@ -1122,12 +1133,108 @@ func c20BuildVerifyChain(r *rng, g, iters int) *c20Inst {
 		ids[string(c.Raw)] = d.id
 		switch d.pool {
 		case "r":
-			roots.AddCert(c)
+			rootCerts = append(rootCerts, c)
 		case "i":
-			inters.AddCert(c)
+			interCerts = append(interCerts, c)
 		default:
 			leaves = append(leaves, c)
 		}
+	}
+	return
+}
+
+func c20Pools(rootCerts, interCerts []*x509.Certificate) (*x509.CertPool, *x509.CertPool) {
+	roots, inters := x509.NewCertPool(), x509.NewCertPool()
+	for _, c := range rootCerts {
+		roots.AddCert(c)
+	}
+	for _, c := range interCerts {
+		inters.AddCert(c)
+	}
+	return roots, inters
+}
+
+// one Verify call, canonical result
+func c20VerifyOnce(lf *x509.Certificate, roots, inters *x509.CertPool, now int, host string, usages []x509.ExtKeyUsage, ids map[string]int) string {
+	opts := x509.VerifyOptions{Roots: roots, Intermediates: inters, CurrentTime: baseTime.Add(time.Duration(now) * time.Hour), DNSName: host, KeyUsages: usages}
+	chains, err := lf.Verify(opts)
+	if err != nil {
+		switch e := err.(type) {
+		case x509.HostnameError:
+			return "err:hostname"
+		case x509.CertificateInvalidError:
+			return "err:invalid:" + strconv.Itoa(int(e.Reason))
+		case x509.UnknownAuthorityError:
+			return "err:unknown-authority"
+		default:
+			return "err:other"
+		}
+	}
+	var out []string
+	for _, ch := range chains {
+		var p []string
+		for _, c := range ch {
+			id, ok := ids[string(c.Raw)]
+			if !ok {
+				return "BAD:chain-uses-foreign-certificate"
+			}
+			p = append(p, strconv.Itoa(id))
+		}
+		out = append(out, strings.Join(p, "."))
+	}
+	sort.Strings(out)
+	return "ok:" + strings.Join(out, ";")
+}
+
+// poolfirst: the FIRST use of a pool, by many goroutines at once. Per round a fresh pair of pools (same
+// certificates); all goroutines wait at a gate and then verify the same leaf against them, so that whatever the
+// pool or the verifier does lazily on first use (indexes, ordering of candidates, caches) happens while the others
+// are inside the same call. (The race detector only remembers the recent accesses of a goroutine: a write that
+// happened a few signature verifications ago is forgotten, so the concurrent first use has to be arranged.)
+func c20PoolFirst(r *rng, g, iters int) string {
+	rootCerts, interCerts, leaves, ids := c20ChainCerts()
+	hosts := []string{"", "www.example.com", "mail.example.com"}
+	for it := 0; it < iters; it++ {
+		lf := leaves[r.intn(len(leaves))]
+		host := hosts[r.intn(len(hosts))]
+		now := r.pick([]int{0, 0, 0, -75})
+		sr, si := c20Pools(rootCerts, interCerts)
+		want := c20VerifyOnce(lf, sr, si, now, host, nil, ids)
+		roots, inters := c20Pools(rootCerts, interCerts)
+		gate := make(chan struct{})
+		res := make([]string, g)
+		var ready, done sync.WaitGroup
+		for gi := 0; gi < g; gi++ {
+			ready.Add(1)
+			done.Add(1)
+			go func(gi int) {
+				defer done.Done()
+				defer c20Recover("poolfirst")
+				ready.Done()
+				<-gate
+				res[gi] = c20VerifyOnce(lf, roots, inters, now, host, nil, ids)
+			}(gi)
+		}
+		ready.Wait()
+		close(gate)
+		done.Wait()
+		for gi := range res {
+			if res[gi] != want {
+				c20Debug("poolfirst round %d goroutine %d: %s, alone %s", it, gi, res[gi], want)
+				return "ORACLE-FAIL:result-differs:poolfirst"
+			}
+		}
+	}
+	return "ok"
+}
+
+func c20BuildVerifyChain(r *rng, g, iters int) *c20Inst {
+	rootCerts, interCerts, leaves, ids := c20ChainCerts()
+	// several pairs of pools with the same content
+	const nPools = 6
+	var rootsN, intersN [nPools]*x509.CertPool
+	for k := range rootsN {
+		rootsN[k], intersN[k] = c20Pools(rootCerts, interCerts)
 	}
 	inst := &c20Inst{calls: make([][]func() string, g)}
 	hosts := []string{"", "www.example.com", "WWW.Example.COM", "mail.example.com", "other.org", "a.b.example.com"}
@@ -1141,38 +1248,13 @@ func c20BuildVerifyChain(r *rng, g, iters int) *c20Inst {
 				usages = []x509.ExtKeyUsage{x509.ExtKeyUsageAny}
 			}
 			subjects := r.chance(1, 8)
+			pk := (i + gi/2) % nPools // goroutines 2k and 2k+1 walk through the pools in step
+			roots, inters := rootsN[pk], intersN[pk]
 			inst.calls[gi] = append(inst.calls[gi], func() string {
 				if subjects {
 					return "subjects:" + strconv.Itoa(len(roots.Subjects())) + ":" + strconv.Itoa(len(inters.Subjects()))
 				}
-				opts := x509.VerifyOptions{Roots: roots, Intermediates: inters, CurrentTime: baseTime.Add(time.Duration(now) * time.Hour), DNSName: host, KeyUsages: usages}
-				chains, err := lf.Verify(opts)
-				if err != nil {
-					switch e := err.(type) {
-					case x509.HostnameError:
-						return "err:hostname"
-					case x509.CertificateInvalidError:
-						return "err:invalid:" + strconv.Itoa(int(e.Reason))
-					case x509.UnknownAuthorityError:
-						return "err:unknown-authority"
-					default:
-						return "err:other"
-					}
-				}
-				var out []string
-				for _, ch := range chains {
-					var p []string
-					for _, c := range ch {
-						id, ok := ids[string(c.Raw)]
-						if !ok {
-							return "BAD:chain-uses-foreign-certificate"
-						}
-						p = append(p, strconv.Itoa(id))
-					}
-					out = append(out, strings.Join(p, "."))
-				}
-				sort.Strings(out)
-				return "ok:" + strings.Join(out, ";")
+				return c20VerifyOnce(lf, roots, inters, now, host, usages, ids)
 			})
 		}
 	}
@@ -1351,7 +1433,13 @@ func c20Pool(pems ...[]byte) *x509.CertPool {
 // tlsconfig: many simultaneous GMSSL handshakes sharing one server Config and one client Config (session
 // tickets, an LRU session cache of capacity 2) while the ticket keys rotate
 
-func c20BuildTLSConfig(r *rng, g, iters int) *c20Inst {
+// tlsconfigfc: the same, and the listener's Config hands every client a fresh Config through GetConfigForClient
+// (never initialised: its ticket keys are inherited from the listener's Config, which rotates them meanwhile)
+func c20BuildTLSConfigFC(r *rng, g, iters int) *c20Inst { return c20BuildTLSConfigX(r, g, iters, true) }
+
+func c20BuildTLSConfig(r *rng, g, iters int) *c20Inst { return c20BuildTLSConfigX(r, g, iters, false) }
+
+func c20BuildTLSConfigX(r *rng, g, iters int, perClient bool) *c20Inst {
 	pki, err := c20GetPKI()
 	if err != nil {
 		panic(err)
@@ -1360,6 +1448,12 @@ func c20BuildTLSConfig(r *rng, g, iters int) *c20Inst {
 	// among "its" suites and silently falls back to a full handshake
 	srvCfg := &gmtls.Config{GMSupport: gmtls.NewGMSupport(), Certificates: pki.gmCerts,
 		CipherSuites: []uint16{gmtls.GMTLS_ECC_SM4_CBC_SM3, gmtls.GMTLS_ECC_SM4_GCM_SM3}}
+	if perClient {
+		srvCfg.GetConfigForClient = func(*gmtls.ClientHelloInfo) (*gmtls.Config, error) {
+			return &gmtls.Config{GMSupport: gmtls.NewGMSupport(), Certificates: pki.gmCerts,
+				CipherSuites: []uint16{gmtls.GMTLS_ECC_SM4_CBC_SM3, gmtls.GMTLS_ECC_SM4_GCM_SM3}}, nil
+		}
+	}
 	cache := gmtls.NewLRUClientSessionCache(2)
 	cliCfg := &gmtls.Config{GMSupport: gmtls.NewGMSupport(), RootCAs: c20Pool(pki.caPEM), ServerName: c20ServerName, ClientSessionCache: cache}
 	// a second client configuration on the same session cache: no server name, so sessions are filed under
@@ -1854,7 +1948,7 @@ func genC20(r *rng, tier string, emit func(string)) {
 	type size struct{ quick, thorough int }
 	calls := map[string]size{
 		"sm4shared": {8000, 40000}, "sm4pkg": {800, 4000}, "sm3shared": {4000, 20000}, "sm2ops": {90, 200}, "curveinit": {32, 64},
-		"parse": {300, 1000}, "p7enc": {40, 100}, "verifychain": {120, 400}, "tlsconfig": {30, 80},
+		"parse": {300, 1000}, "p7enc": {40, 100}, "verifychain": {120, 400}, "tlsconfig": {30, 80}, "tlsconfigfc": {30, 80},
 	}
 	iters := func(name string, g int, thorough bool) int {
 		if name == "tlsconn" { // messages per writer; the reader pair gets 2000 bytes per message
@@ -1862,6 +1956,12 @@ func genC20(r *rng, tier string, emit func(string)) {
 				return 150
 			}
 			return 50
+		}
+		if name == "poolfirst" { // rounds
+			if thorough {
+				return 60
+			}
+			return 12
 		}
 		if name == "renegrefuse" || name == "renegbig" || name == "warnflood" || name == "lrucache" { // connections: 1 + iters/4 (lrucache: 200*iters cache calls per goroutine)
 			if thorough {
@@ -1873,7 +1973,7 @@ func genC20(r *rng, tier string, emit func(string)) {
 		if thorough {
 			n = calls[name].thorough
 		}
-		if name == "tlsconfig" && n/g < 2 {
+		if (name == "tlsconfig" || name == "tlsconfigfc") && n/g < 2 {
 			return 2 // a second connection per goroutine: the session cache and the tickets get used
 		}
 		if g <= 2 {
